@@ -4,8 +4,9 @@ import json, os, sys
 ROOT = os.path.dirname(os.path.dirname(os.path.abspath(__file__)))
 HOOK_COMMITS = ["9f2e238", "471c9da"]
 TRUST = ("trusted base: rustc/std (String is the reference model), proptest 1.11 generators and shrinking, the harness "
-         "(shadow heap, interpreter) itself; 64-bit little-endian only; lean_string compiled with feature verif-hooks "
-         "and debug assertions; bounded history length / text size as stated in the evidence rule")
+         "(shadow heap, interpreter) itself; 64-bit little-endian only; lean_string compiled with feature verif-hooks; "
+         "every lsv-engine check runs twice, with the engine and the crate built without and with debug assertions "
+         "(a violation in either is reported; an inconclusive pass without them never counts as a pass); bounded history length / text size as stated in the evidence rule")
 CHECKS = {
  "C01": ("exploration", "lsv", "model-based stateful PBT: proptest histories vs a String reference model, all storage states, shrinking to a replay",
          "Generated operation histories over 6 handles are run against the real crate and a String per handle; every read-back and return value is compared after every step. Exploration, not proof: bounded histories (40 quick / 120 thorough ops).", "DESIGN.md §6 C01"),
@@ -44,7 +45,7 @@ CHECKS = {
  "C18": ("fault_enumeration", "lsv", "callback-panic position enumeration over proptest-generated histories, String-after-same-panic as oracle, shadow-heap leak accounting",
          "Every callback-taking operation of each generated history is re-run with its callback panicking at invocation k for every k that fires; compared with String after the identical panic, plus isolation, refcount and leak invariants.", "DESIGN.md §6 C18"),
  "C19": ("exploration", "lsv-features", "differential vs String/&str with the serde and arbitrary features on: recording Serializer (human-readable and not), serde value deserializers, serde_json, exhaustive byte-class sequences, proptest texts and Unstructured seeds",
-         "Serialisation equals String's (one serialize_str), every str/borrowed str/String/bytes/borrowed bytes input deserialises to the text or is rejected exactly when it is not UTF-8, every visitor entry point (visit_str/borrowed_str/string/bytes/borrowed_bytes/byte_buf and non-string inputs) and deserialize_in_place into 7 kinds of pre-existing content agree with String; LeanString::arbitrary / arbitrary_take_rest / size_hint equal <&str>'s on the same Unstructured over consecutive draws.", "DESIGN.md §6 C19"),
+         "Serialisation equals String's (one serialize_str), every str/borrowed str/String/bytes/borrowed bytes input deserialises to the text or is rejected exactly when it is not UTF-8, every visitor entry point (visit_str/borrowed_str/string/bytes/borrowed_bytes/byte_buf and non-string inputs) and deserialize_in_place into 7 kinds of pre-existing content agree with String; LeanString::arbitrary / arbitrary_take_rest / size_hint equal <&str>'s on the same Unstructured over consecutive draws; with the crate's allocator refusing every request the integrations may fail but never yield another text.", "DESIGN.md §6 C19"),
  "C20": ("exploration", "lsv", "niche/layout sweep, Option round trips in proptest histories, and a configuration-matrix differential: identical seeded histories (a sixth of them with an injected allocation failure) digested in every feature set x optimisation level (and hooks-off builds)",
          "Sizes and alignment asserted; Some(s) matched as Some for every inline final byte and heap/static length; the same generated histories run with all C01-C03 oracles in the default build and produce identical value and allocator-event digests in {default, no-default-features, all features} x {optimised without debug assertions, unoptimised} and in hooks-off builds; all 8 feature combinations of the crate build.", "DESIGN.md §6 C20"),
 }
@@ -86,7 +87,7 @@ def main():
              "kind_free_text": "proptest-driven stateful model-based history explorer with shadow heap, fault/panic enumerators, grids and value-domain differential engines"},
         ],
         "checks": checks,
-        "notes": "tools/: try_mutant.sh / verify_mutant.sh / seeded_matrix.sh (sensitivity against the 130+ seeded changes under seeded/), refresh_evidence.sh, silence.sh (multi-seed runs on the unchanged tree), iso_setup.sh. All checks: ./check <ID> quick|thorough (cwd /verif); VERIF_SEED honoured; exit 2 = infrastructure trouble / inconclusive, never a violation. Fix commits in /repo are listed in known_findings.json.",
+        "notes": "tools/: try_mutant.sh / verify_mutant.sh / seeded_matrix.sh (sensitivity against the 430+ seeded changes under seeded/), refresh_evidence.sh, silence.sh (multi-seed runs on the unchanged tree), iso_setup.sh. All checks: ./check <ID> quick|thorough (cwd /verif); VERIF_SEED honoured; exit 2 = infrastructure trouble / inconclusive, never a violation. Fix commits in /repo are listed in known_findings.json.",
         "not_applicable": na,
     }
     json.dump(m, open(os.path.join(ROOT, "MANIFEST.json"), "w"), indent=1)
